@@ -119,6 +119,17 @@ func schedWorlds(quick bool) []schedWorld {
 		res = append(res, schedWorld{w: w, infos: w.Infos(), admin: len(w.ANPs) > 0 || w.BANP != nil})
 	}
 	res = append(res, podsWorld()) // index 7 in both tiers
+	// index 8: two rules whose pod selectors hold the same two requirements on one key, written in the two orders
+	{
+		reqA := wm.Req{Key: "tier", Op: "Exists"}
+		reqB := wm.Req{Key: "tier", Op: "NotIn", Vals: []string{"db"}}
+		w := &wm.World{NSs: nss[:1], WLs: wls[:2], NPs: []wm.NP{{NS: "ns1", Name: "same-key", PodSel: *wm.ML("app", "a"), Types: []string{"Ingress", "Egress"},
+			Ingress: []wm.NPRule{{Peers: []wm.NPPeer{{Pod: &wm.Sel{ME: []wm.Req{reqA, reqB}}}}, Ports: []wm.NPPort{{HasPort: true, Num: 80}}},
+				{Peers: []wm.NPPeer{{Pod: &wm.Sel{ME: []wm.Req{reqB, reqA}}}}, Ports: []wm.NPPort{{HasPort: true, Num: 90}}}},
+			Egress: []wm.NPRule{{Peers: []wm.NPPeer{{NSSel: wm.ML("team", "q"), Pod: &wm.Sel{ME: []wm.Req{reqB, reqA}}}}, Ports: []wm.NPPort{{HasPort: true, Num: 53, Proto: "UDP"}}},
+				{Peers: []wm.NPPeer{{NSSel: wm.ML("team", "q"), Pod: &wm.Sel{ME: []wm.Req{reqA, reqB}}}}, Ports: []wm.NPPort{{HasPort: true, Num: 54, Proto: "UDP"}}}}}}}
+		res = append(res, schedWorld{w: w, infos: w.Infos()})
+	}
 	if !quick {
 		for _, w := range []*wm.World{{NSs: nss, WLs: wls, NPs: []wm.NP{np1, np2, np3}, Svcs: svcs, Ings: ings, Routes: routes},
 			{NSs: nss, WLs: wls, ANPs: anps, BANP: banp, Svcs: svcs, Routes: routes}} {
